@@ -274,6 +274,15 @@ def gen_case(ctx, k_case):
                  "tables": [[r.choice([0.0, 0.5, 1.0, 1.0, 1.5, 2.0, -0.5]) for _ in range(g ** dim)] for _ in range(6)]}
     case = {"stream": stream, "dim": dim, "data": data, "range": rng_given, "p": p, "even": even,
             "shuffle": shuffle_seed, "learn": learn, "ops": [], "reeval_learning": r.random() < 0.5}
+    if rng_given is None and r.random() < 0.15:
+        # the owner has scaled the data set before handing it over (scale_range / scale_factor / shift_value, scalar and array)
+        kind = r.choice(["range", "range", "factor", "factor", "shift"])
+        if kind == "range":
+            case["owner"] = {"kind": "range", "range": r.choice([[0.0, 1.0], [0.0, 1.0], [-1.0, 1.0], [0.25, 0.75]])}
+        elif kind == "factor":
+            case["owner"] = {"kind": "factor", "f": r.choice([2.0, 0.5, 4.0, [r.choice([2.0, 0.5, 0.25, 8.0]) for _ in range(dim)]])}
+        else:
+            case["owner"] = {"kind": "shift", "s": r.choice([1.0, -3.5, [r.choice([0.5, -2.0, 16.0]) for _ in range(dim)]])}
     # later calls
     labelled = [row for row in data if row[-1] >= 0]
     if not labelled:
@@ -312,6 +321,13 @@ def gen_case(ctx, k_case):
             case["ops"].append({"op": "evaluate"})
             continue
         op = "call" if r.random() < 0.5 else "test"
+        if r.random() < 0.15:
+            # a set derived from the object's own data is fed back
+            case["ops"].append({"op": op, "mode": "own", "data": [], "pre": None, "print_removed": r.random() < 0.8, "reeval": r.random() < 0.6,
+                                "own": {"src": r.choice(["testing", "testing", "learning"]),
+                                        "how": r.choice(["all", "all", "piece0", "piece1", "removed", "remaining"]),
+                                        "p": r.choice([0.5, 0.25, 0.75]), "fracs": [r.random() for _ in range(r.randint(1, 4))]}})
+            continue
         mode = r.choice(["inside", "inside", "partly", "partly", "partly", "outside", "unlabelled", "tight", "empty",
                          "wrongdim", "prescaled", "prescaled-other"])
         m = r.randint(1, 12)
@@ -405,6 +421,29 @@ class Runner:
         if rng_given:
             kw["data_range"] = (np.array(rng_given[0], dtype=np.float64), np.array(rng_given[1], dtype=np.float64))
         ds = deml.DataSet((X.copy(), y.copy()), "c19")
+        # a constructor data set that its OWNER has already scaled (marked `is_scaled()`): the coordinates the owner hands over
+        # are the data; the learning scaling must be fitted to THEM, and later batches arrive in the same coordinates
+        self.owner_map = None
+        owner = case.get("owner")
+        if owner and len(data):
+            if owner["kind"] == "range":
+                from sklearn import preprocessing
+                sc_o = preprocessing.MinMaxScaler(feature_range=tuple(owner["range"])).fit(X)
+                self.owner_map = lambda A: sc_o.transform(A)
+                ds.scale_range(tuple(owner["range"]))
+            elif owner["kind"] == "factor":
+                fo = np.array(owner["f"], dtype=np.float64) if isinstance(owner["f"], list) else float(owner["f"])
+                self.owner_map = lambda A: A * fo
+                ds.scale_factor(fo)
+            else:
+                so = np.array(owner["s"], dtype=np.float64) if isinstance(owner["s"], list) else float(owner["s"])
+                self.owner_map = lambda A: A + so
+                ds.shift_value(so)
+            ctx.count("owner_prescaled_" + owner["kind"] + ("_array" if isinstance(owner.get("f", owner.get("s")), list) else ""))
+            if not ds.is_scaled():
+                self.corr("owner-prescaling", "scaled", "not marked as scaled")
+            data = [[float(v) for v in ds[0][i]] + [int(ds[1][i])] for i in range(len(data))]
+            labelled = [row for row in data if row[-1] >= 0]
         if case["shuffle"] is not None:
             np.random.seed(case["shuffle"])
         impl_err = None
@@ -448,6 +487,7 @@ class Runner:
         iL = [] if ld.is_empty() else [(list(p), int(l)) for p, l in zip(ld[0], ld[1])]
         iT = [] if td.is_empty() else [(list(p), int(l)) for p, l in zip(td[0], td[1])]
         pos_l = self.positions(labelled)
+        self.pos_lab = [([float(v) for v in q[0]], row) for q, row in zip(pos_l, labelled)]
         exp_in = [([float(v) for v in q[0]], row[-1]) for q, row in zip(pos_l, labelled) if q[1] or not rng_given]
         if rng_given and any(q[2] < AMBIG for q in pos_l):
             ctx.count("ambiguous_float")
@@ -457,6 +497,7 @@ class Runner:
             self.viol("learning-data-in-range", {}, {})
         ctx.count("split_%s" % ("even" if case["even"] else "uneven"))
         ctx.count("testing_empty" if not iT else "testing_nonempty")
+        self.initial_testing_empty = not iT
         # ---- model
         mT = []
         if not m1.startswith("ok"):
@@ -558,6 +599,7 @@ class Runner:
             ctx.count("ambiguous_float")
             return
         for op in case["ops"]:
+            op = self.eff_op(op)
             if self.stop:
                 break
             if op["op"] == "evaluate":
@@ -687,7 +729,7 @@ class Runner:
         lab = self.class_labels[j] if j < len(self.class_labels) else None
         if c == lab:
             return True
-        if c == j:
+        if c == j and c not in self.class_labels:     # a bare index that is not itself a label of the data set
             self.viol("class-is-label", {"labels": "noncontiguous" if self.class_labels != list(range(len(self.class_labels))) else "contiguous"},
                       {"returned_class": c, "label_of_argmax_density": lab, "labels_of_classificators": self.class_labels})
             return True
@@ -764,20 +806,68 @@ class Runner:
         else:
             self.viol("evaluate-raises", {"error": impl}, {"where": where})
 
-    def do_op(self, op):
+    def eff_op(self, op):
+        """later batches are given in the coordinates of the constructor data (the owner's, if the owner scaled them)"""
+        if self.owner_map is None or not op.get("data") or len(op["data"][0]) - 1 != len(self.olo):
+            return op
+        A = np.array([row[:-1] for row in op["data"]], dtype=np.float64)
+        B = self.owner_map(A)
+        return dict(op, data=[[float(v) for v in B[i]] + [op["data"][i][-1]] for i in range(len(A))])
+
+    def make_input(self, op, name="later"):
+        """the DataSet handed to the later call and the rows (constructor coordinates, label) it stands for.
+        `own`: a set DERIVED from the object's own data -- get_testing_data() / get_learning_data(), a piece or a removal of
+        it; such sets are already expressed in the learning scaling and marked so: they must be used as they are, i.e. every
+        sample at the learning-scaling position of the constructor sample it came from."""
         import sparseSpACE.DEMachineLearning as deml
-        ctx, drv, clf = self.ctx, self.drv, self.clf
+        own = op.get("own")
+        if own:
+            src = self.clf.get_testing_data() if own["src"] == "testing" else self.clf.get_learning_data()
+            d = src
+            if not src.is_empty():
+                n = src.get_length()
+                if own["how"] in ("piece0", "piece1"):
+                    d = src.split_pieces(own["p"])[0 if own["how"] == "piece0" else 1]
+                elif own["how"] in ("removed", "remaining"):
+                    idx = sorted(set(min(n - 1, int(f * n)) for f in own["fracs"]))
+                    removed = src.remove_samples(idx)
+                    d = removed if own["how"] == "removed" else src
+            rows = []
+            if not d.is_empty():
+                free = list(self.pos_lab)
+                for p, l in zip(d[0], d[1]):
+                    for k, (q, row) in enumerate(free):
+                        if int(l) == row[-1] and pts_close(list(p), q):
+                            rows.append(list(row))
+                            del free[k]
+                            break
+                    else:
+                        return d, None
+            return d, rows
         rows = op["data"]
         dim_in = len(rows[0]) - 1 if rows else 0
         if rows:
             Xn = np.array([row[:-1] for row in rows], dtype=np.float64).reshape(len(rows), dim_in)
             yn = np.array([row[-1] for row in rows], dtype=np.int64)
-            d = deml.DataSet((Xn, yn), "later")
+            d = deml.DataSet((Xn, yn), name)
         else:
-            d = deml.DataSet((np.array([]), np.array([])), "later")
+            d = deml.DataSet((np.array([]), np.array([])), name)
+        if op.get("pre") is not None:
+            d.scale_range((op["pre"][0], op["pre"][1]))
+        return d, rows
+
+    def do_op(self, op):
+        ctx, drv, clf = self.ctx, self.drv, self.clf
+        d, rows = self.make_input(op)
+        if rows is None:
+            self.viol("derived-set-positions", {"src": op["own"]["src"], "how": op["own"]["how"]},
+                      {"what": "a sample of the object's own derived set is not the learning-scaling image of a constructor sample"})
+            return
+        if op.get("own"):
+            op = dict(op, data=rows)
+            ctx.count("own_%s_%s" % (op["own"]["src"], op["own"]["how"]))
+        dim_in = len(rows[0]) - 1 if rows else 0
         pre = op.get("pre")
-        if pre is not None:
-            d.scale_range((pre[0], pre[1]))
         prestr = "-" if pre is None else "%s,%s" % (F(str(pre[0])), F(str(pre[1])))
         dstr = fmt_data([(row[:-1], row[-1]) for row in rows])
         before_classes = list(clf.get_calculated_classes_testset())
@@ -800,6 +890,13 @@ class Runner:
         tags = {"op": op["op"], "mode": op.get("mode"), "pre": pre is not None, "dim": len(self.olo)}
         mpts = drv.ask("pts %s %s" % (prestr, dstr)) if self.model_on else ""
         # ---- exceptions: compare the kind with the model; decide which are violations of the property text
+        if impl_err == "scalingMismatch" and op.get("own") and op["own"]["src"] == "testing" and self.initial_testing_empty:
+            # the object had no test set of its own: `_testing_data` IS the first tested batch, which carries that batch's
+            # scaling attributes (range = its own extremes, origin = its own minimum); handing it back is refused, nothing
+            # is classified and nothing changes -- recorded, not a violation (no sample gets a wrong position)
+            ctx.count("own_testing_born_from_batch_refused")
+            self.after_op(before_classes, before_results, live_results, 0)
+            return
         if impl_err is not None:
             if self.model_on:
                 self.cmp("op-error", "err " + impl_err, drv.ask("%s %s %s" % (op["op"], prestr, dstr)))
@@ -838,6 +935,10 @@ class Runner:
                 n_new = max(0, len(allc) - len(before_classes))
             classes_now = [int(c) for c in allc[len(allc) - n_new:]] if n_new else []
             self.n_tests += 1
+            # tested samples join the object's test set: they may come back in a later own-derived batch
+            lab_rows = [row for (pp, inr, mg), row in zip(pos, rows) if inr and row[-1] >= 0] if pos else []
+            if len(lab_rows) == len(used_impl):
+                self.pos_lab += [(list(pq), list(row)) for (pq, _), row in zip(used_impl, lab_rows)]
         # removed samples as reported on stdout / log
         reported = [(list(map(float, g.group(1).split())), int(g.group(2))) for g in
                     re.finditer(r"^\d+ : \[([^\]]*)\] \| class (-?\d+)$", out.replace("\n ", " "), re.M)]
@@ -1004,12 +1105,9 @@ class Runner:
         import sparseSpACE.DEMachineLearning as deml
         for h in list(self.history):
             op = h["op"]
-            rows = op["data"]
-            Xn = np.array([row[:-1] for row in rows], dtype=np.float64).reshape(len(rows), len(rows[0]) - 1)
-            yn = np.array([row[-1] for row in rows], dtype=np.int64)
-            d = deml.DataSet((Xn, yn), "again")
-            if op.get("pre") is not None:
-                d.scale_range((op["pre"][0], op["pre"][1]))
+            d, rows_again = self.make_input(op, "again")
+            if rows_again is None or (op.get("own") and rows_again != op["data"]):
+                continue      # (an own set that has grown by later test_data calls is a different batch)
             try:
                 res, _ = quiet(lambda: self.clf(d, print_removed=False))
             except Exception as e:  # noqa: BLE001
@@ -1047,7 +1145,7 @@ def run(ctx):
         "iteration order of Python sets (labels, boundary rows) is an input of the model, recomputed by the harness with the code's own expression",
     ]
     drv = ctx.driver("drv_c19")
-    budget = 75 if not thorough else 480
+    budget = 75 if not thorough else 420
     n = 400 if not thorough else 6000
     k = 0
     while k < n and ctx.time_left(budget) > 0:
